@@ -19,6 +19,7 @@ RULE = ("Hypothesis: (a) arbitrary streams of 0-60 vocabulary tokens drawn class
         "and info_circle_of_fifths[i] the fifths position of pitch % 12 from an independent table ((7*pc) mod 12 folded into "
         "-5..6). For (b) additionally info_time_bar[i] = onset - start of its grid bar and info_time never decreases. "
         "Non-trivial: the stream holds a note token after a bar or signature token. Distinct by case digest.")
+RULE = RULE + " Round f: tokeniser objects that annotated and detokenised another stream before."
 ASSUMPTIONS = ["annotations of non-note tokens (nan or imputed values) are not part of the statement beyond their presence"]
 TIERS = {"quick": dict(shards=8, examples=1200), "thorough": dict(fuzz_runs=20000, fuzz_shards=4, shards=16, examples=12000)}
 
